@@ -1895,12 +1895,16 @@ impl<'a, const C: usize, const R: usize, T: 'a + Copy + std::fmt::Debug> Layout<
                 return custom;
             }
             Sequence { events } => {
-                self.active_sequences.push_back(SequenceState {
-                    cur_event: None,
-                    delay: 0,
-                    tapped: None,
-                    remaining_events: events,
-                });
+                // Up to 4 macros can be active at the same time. Do not start another one: the
+                // wrapping push would drop the oldest macro mid-way and leave its keys pressed.
+                if !self.active_sequences.is_full() {
+                    self.active_sequences.push_back(SequenceState {
+                        cur_event: None,
+                        delay: 0,
+                        tapped: None,
+                        remaining_events: events,
+                    });
+                }
                 if !is_oneshot {
                     self.oneshot
                         .handle_press(OneShotHandlePressKey::Other(coord));
@@ -1908,12 +1912,14 @@ impl<'a, const C: usize, const R: usize, T: 'a + Copy + std::fmt::Debug> Layout<
                 self.rpt_action = Some(action);
             }
             RepeatableSequence { events } => {
-                self.active_sequences.push_back(SequenceState {
-                    cur_event: None,
-                    delay: 0,
-                    tapped: None,
-                    remaining_events: events,
-                });
+                if !self.active_sequences.is_full() {
+                    self.active_sequences.push_back(SequenceState {
+                        cur_event: None,
+                        delay: 0,
+                        tapped: None,
+                        remaining_events: events,
+                    });
+                }
                 let _ = self.states.push(RepeatingSequence {
                     sequence: events,
                     coord,
